@@ -140,7 +140,7 @@ def gen_cases(tier, seed):
                         o += triple(rng, *rng.choice(big))
                 ops[str(n)] = o
             cases.append({"mode": mode, "nodes": nodes, "ops": ops, "noise": r % 2 == 0,
-                          "seed": rng.randrange(1 << 30), "slow_store": r % 3 == 1})
+                          "seed": rng.randrange(1 << 30), "slow_store": r % 3 == 1, "slow_send": r % 2 == 0})
     return cases
 
 
